@@ -1033,7 +1033,15 @@ func (c *Context) Exp(d, x *Decimal) (Condition, error) {
 		return 0, fmt.Errorf("r.Float64: %w", err)
 	}
 	pf := float64(p)
-	nf := math.Ceil((1.435*pf - 1.182) / math.Log10(pf/rf))
+	// log10(|r|): below the range in which float64 holds |r| with full accuracy
+	// (it is 0 below 5e-324, and then no term of the series at all was summed:
+	// Exp(1E-350) at Precision 400 returned exactly 1) its decimal exponent is
+	// used instead, which errs on the side of more terms.
+	lr := math.Log10(rf)
+	if rf < 1e-300 {
+		lr = float64(int64(ra.Exponent) + ra.NumDigits())
+	}
+	nf := math.Ceil((1.435*pf - 1.182) / (math.Log10(pf) - lr))
 	if nf > 1000 || math.IsNaN(nf) {
 		return 0, errors.New("too many iterations")
 	}
